@@ -12,7 +12,8 @@ import (
 // the printing code formats them (the executor then forks on their value, because the lexer
 // needs concrete text).
 
-var verifC12Strings = []string{"", "a", "a\"b", "it's", "\\", "\n\t", "é☃", "\x00\x7f", "`", "${x}", "a b"}
+var verifC12Strings = []string{"", "a", "a\"b", "it's", "\\", "\n\t", "\u00e9\u2603", "\x00\x7f", "`", "${x}", "a b",
+	"a\u200bb", "\u2028", "\ufeff", "\ue000z", "\u00a0\u00ad", "\U0001f600", "\U000e0001"}
 
 var verifC12AttrNames = []string{"a", "@", "a b", "", "1x", "let", "a.b", "@item", "'q'", "é", "x\"y", "true"}
 
